@@ -1112,3 +1112,20 @@ func regexpMustCompile(pattern string) *regexp.Regexp {
 	reCache[pattern] = re
 	return re
 }
+
+// unwrapLoadAddr: for a value of the form *(&X[i].f) or *(&X[i]) return the IndexAddr.
+func unwrapLoadAddr(v ssa.Value) (*ssa.IndexAddr, bool) {
+	for i := 0; i < 6; i++ {
+		switch x := v.(type) {
+		case *ssa.UnOp:
+			v = x.X
+		case *ssa.FieldAddr:
+			v = x.X
+		case *ssa.IndexAddr:
+			return x, true
+		default:
+			return nil, false
+		}
+	}
+	return nil, false
+}
